@@ -19,6 +19,12 @@
 
 #include <unifex/detail/prologue.hpp>
 
+#ifdef UNIFEX_VERIF
+// Verification hook (no-op unless UNIFEX_VERIF is defined): lets a symbolic
+// engine model "spin until the location last read changes" as a blocking op.
+extern "C" void vf_spin_wait() noexcept;
+#endif
+
 namespace unifex {
 
 class spin_wait {
@@ -26,6 +32,10 @@ public:
   spin_wait() noexcept = default;
 
   void wait() noexcept {
+#ifdef UNIFEX_VERIF
+    vf_spin_wait();
+    return;
+#endif
     if (count_++ < yield_threshold) {
       // TODO: _mm_pause();
     } else {
